@@ -146,8 +146,9 @@ type node struct {
 	degraded bool
 	// a node without a snapshot of its own (memory cap reached) is re-derived when it is expanded: restore
 	// the nearest ancestor that has one and replay the letters in between
-	anc    *node
-	suffix []int
+	anc     *node
+	suffix  []int
+	enabled []bool // which letters are enabled here (kept instead of the model state)
 }
 
 // Violation is a discrepancy owned by the property being checked, with the path that reaches it.
@@ -221,14 +222,15 @@ type job struct {
 }
 
 type result struct {
-	done  bool
-	job   job
-	key   [32]byte
-	snap  *mc.Snap
-	m     *model.State
-	aux   map[string]int
-	obs   StepObs
-	discs []Disc
+	enabled []bool
+	done    bool
+	job     job
+	key     [32]byte
+	snap    *mc.Snap
+	m       *model.State
+	aux     map[string]int
+	obs     StepObs
+	discs   []Disc
 }
 
 // Explore runs the level-synchronous BFS.
@@ -344,6 +346,12 @@ func (s *Scenario) Explore(opt Options) (Stats, []Violation) {
 				if a.PrefixOnly {
 					continue
 				}
+				if n.m == nil {
+					if n.enabled != nil && n.enabled[ai] {
+						jobs = append(jobs, job{pi, ai})
+					}
+					continue
+				}
 				if a.Enabled == nil || a.Enabled(n.m, n.aux) {
 					jobs = append(jobs, job{pi, ai})
 				}
@@ -425,6 +433,12 @@ func (s *Scenario) Explore(opt Options) (Stats, []Violation) {
 							r.m = e.M
 							r.aux = e.Aux
 							atomic.AddInt64(&levelBytes, int64(r.snap.Size())+perNodeOverhead)
+						} else if take && depth < opt.Depth {
+							r.enabled = make([]bool, len(s.Actions))
+							for ai := range s.Actions {
+								a := &s.Actions[ai]
+								r.enabled[ai] = !a.PrefixOnly && (a.Enabled == nil || a.Enabled(e.M, e.Aux))
+							}
 						}
 					}
 					r.done = true
@@ -495,6 +509,7 @@ func (s *Scenario) Explore(opt Options) (Stats, []Violation) {
 			if n.degraded {
 				st.DeadStates++
 			}
+			n.enabled = r.enabled
 			if n.snap == nil && depth < opt.Depth { // lazily re-derived from the nearest ancestor with a snapshot
 				if p.snap != nil {
 					n.anc, n.suffix = p, []int{r.job.act}
